@@ -118,6 +118,7 @@ def report(ctx, r, per_clause):
     c = r['cfg']
     rp = {'kind': 'behaviour', 'cfg': c, 'script': r['script'], 'U': r['U'],
           'version': r['version'], 'variant': r['variant'],
+          'predst': r.get('predst'), 'progress': r.get('progress', False),
           'ranges_per_reply': r['ranges_per_reply'],
           'err_code': r['err_code']}
     for clause in sorted({cl for cl, _ in r['l1']}):
@@ -153,7 +154,7 @@ TREE_INVS = ['SizeFromTarget', 'LinksAsFlagged', 'TreeShaped',
 def tree_tlc(name, invs, workers=2, seed=None, **kw):
     """One TLC run of specs/SftpIO/SftpTree.tla"""
     d = dict(Emit='FALSE', NTrees=0, NFlags=0, SizeFromLstat='FALSE',
-             SkipErrors='FALSE')
+             SkipErrors='FALSE', SkipEmpty='FALSE')
     d.update(kw)
     cfg = f'_c12_tree_{name}.cfg'
     lines = ['CONSTANTS'] + [f'  {k} = {v}' for k, v in d.items()]
@@ -731,7 +732,9 @@ def main(ctx):
         r = sftp_io.replay(rp['cfg'], script, None, U=rp['U'],
                            version=rp['version'], variant=rp['variant'],
                            ranges_per_reply=rp.get('ranges_per_reply', 128),
-                           err_code=rp.get('err_code', 4))
+                           err_code=rp.get('err_code', 4),
+                           predst=rp.get('predst'),
+                           progress=rp.get('progress', False))
         print('replayed:', {k: r[k] for k in ('outcome', 'l1', 'exc')
                             if k in r})
         ctx.count(('replay', ctx.replay_path))
@@ -745,9 +748,9 @@ def main(ctx):
     if quick:
         runs = [
             ('read', None, dict(MaxN=6, Blocks=B3, MaxReqs=M3, Ops='{"read"}',
-                                SparseSet=NS, MaxAns=3)),
+                                SparseSet=NS, MaxAns=2)),
             ('write', None, dict(MaxN=6, Blocks=B3, MaxReqs=M3,
-                                 Ops='{"write"}', SparseSet=NS, MaxAns=3)),
+                                 Ops='{"write"}', SparseSet=NS, MaxAns=2)),
             ('copy', None, dict(MaxN=6, Blocks=B3, MaxReqs=M3,
                                 Ops='{"get", "put", "copy"}', SparseSet=NS,
                                 MaxAns=2)),
@@ -830,14 +833,18 @@ def main(ctx):
         f_tree = {
             'all': ex.submit(tree_tlc, 'all', TREE_INVS,
                              workers=2 if quick else 6,
-                             seed=ctx.seed + 3, NFlags=50 if quick else 0),
+                             seed=ctx.seed + 3, NFlags=35 if quick else 0),
             'lstat': ex.submit(tree_tlc, 'lstat', ['SizeFromTarget'],
                                SizeFromLstat='TRUE'),
             'skip': ex.submit(tree_tlc, 'skip', ['ErrorsReported'],
                               SkipErrors='TRUE'),
+            'empty': ex.submit(tree_tlc, 'empty', ['ErrorsReported'],
+                               SkipEmpty='TRUE'),
             'emit': ex.submit(tree_tlc, 'emit', ['Table'], workers=1,
                               seed=ctx.seed + 5, Emit='TRUE',
-                              NTrees=600 if quick else 15000),
+                              # a sample of trees x a sample of flag sets
+                              NTrees=125 if quick else 0,
+                              NFlags=4 if quick else 40),
         }
         # the file object (specs/SftpIO/FileObj.tla)
         fo_dir = tlc.workdir('c12_fo_sim_out')
@@ -858,7 +865,7 @@ def main(ctx):
                              Widths='{1, 2, 3, 4}', Boms='{0, 2, 4}',
                              MaxOps=4, MaxLen=16,
                              simulate=f'file={fo_dir}/tr,num='
-                                      f'{150 if quick else 2500}',
+                                      f'{110 if quick else 2500}',
                              depth=6, seed=ctx.seed * 10 + 9),
         }
         # the server's limits (specs/SftpIO/Limits.tla)
@@ -911,9 +918,11 @@ def main(ctx):
             version = rnd.choice([3, 3, 4, 5, 6])
             rpr = rnd.choice([1, 128]) if c['sparse'] else 128
             code = rnd.choice([4, 3, 2, 8])
+            predst = rnd.choice([None, None, 'shorter', 'longer', 'equal'])
+            prog = rnd.random() < 0.5
             r = sftp_io.replay(c, script, states, U=U, version=version,
                                variant=variant, ranges_per_reply=rpr,
-                               err_code=code)
+                               err_code=code, predst=predst, progress=prog)
             if r.get('skipped'):
                 skipped += 1
                 continue
@@ -958,6 +967,10 @@ def main(ctx):
                        expect_violation='SizeFromTarget')
     ctx.require_tlc_ok('SftpTree dropping failed entries silently (must '
                        'violate ErrorsReported)', tree_res['skip'],
+                       expect_violation='ErrorsReported')
+    ctx.require_tlc_ok('SftpTree leaving the destination of an empty file '
+                       'alone when a progress handler is set (must violate '
+                       'ErrorsReported)', tree_res['empty'],
                        expect_violation='ErrorsReported')
     ctx.require_tlc_ok('SftpTree case table', tree_res['emit'])
     tree_replay(ctx, tree_res['emit'], rnd)
